@@ -41,8 +41,8 @@ func (w *World) WalkStore(sigPrefix string) {
 	// the workers merge their local counters into the store's after each list: give a merge in flight
 	// time to land before calling a difference an accounting error
 	err = res.CompareStats(sl.Stats.VerifRaw())
-	for try := 0; try < 100 && err != nil; try++ {
-		time.Sleep(200 * time.Microsecond)
+	for try := 0; try < 3000 && err != nil; try++ {
+		time.Sleep(time.Millisecond)
 		err = res.CompareStats(sl.Stats.VerifRaw())
 	}
 	if err != nil {
